@@ -143,7 +143,7 @@ fn read_item(tr: &mut Tr, rng: &mut SmallRng, rd: &mut TRd, it: &Item, opt: Opti
 
 /// Codes positioned so that they end before, exactly at, or beyond the end of a strict stream:
 /// for every split point j the code starts j bits before the cut.
-pub fn crossing(tr: &mut Tr, seed: u64, shard: usize, nshards: usize) -> (u64, u64) {
+pub fn crossing(tr: &mut Tr, seed: u64, shard: usize, nshards: usize, only_vbyte: bool) -> (u64, u64) {
     use crate::drivers::codes::{read_opts, write_opts};
     use dsi_bitstream::prelude::*;
     let mut rng = SmallRng::seed_from_u64(seed ^ 0x4352);
@@ -161,7 +161,16 @@ pub fn crossing(tr: &mut Tr, seed: u64, shard: usize, nshards: usize) -> (u64, u
         (CodeSpec::k(Fam::ExpGolomb, 2), vec![5, 300]),
         (CodeSpec::b(Fam::Golomb, 5), vec![3, 22]),
         (CodeSpec::simple(Fam::VByteLe), vec![5, 300]),
+        (CodeSpec::simple(Fam::VByteBe), vec![5, 300]),
     ];
+    let cases: Vec<(CodeSpec, Vec<u64>)> = if only_vbyte {
+        vec![
+            (CodeSpec::simple(Fam::VByteLe), vec![0, 5, 127, 128, 300, 16511, 16512, 3_000_000, u64::MAX]),
+            (CodeSpec::simple(Fam::VByteBe), vec![0, 5, 127, 128, 300, 16511, 16512, 3_000_000, u64::MAX]),
+        ]
+    } else {
+        cases
+    };
     for (ci, cfg) in all_rcfgs().iter().enumerate() {
         if ci % nshards != shard || !cfg.strict() {
             continue;
